@@ -21,7 +21,7 @@ Definition MT_UC : N := Z.to_N rtmp_MessageTypeUserControl.
 Definition MT_WAS : N := Z.to_N rtmp_MessageTypeWindowAcknowledgementSize.
 Definition EV_FMS0 : N := Z.to_N rtmp_EventTypeFmsEvent0.
 Definition EV_SETBUF : N := Z.to_N rtmp_EventTypeSetBufferLength.
-Definition hdr_size (fmt : N) : N := Z.to_N (nth (N.to_nat fmt) rtmp_messageHeaderSizes 0%Z).
+Definition hdr_size (fmt : N) : N := Z.to_N (nth (N.to_nat fmt) rtmp_tbl_message_header_sizes 0%Z).
 Definition T31 : N := 2147483648.      (* & 0x7fffffff *)
 
 (* error classes (observable: root cause / message prefix) *)
